@@ -44,6 +44,9 @@ CHECKS["C11"] = ("respondent-level weighted variance of the +1/-1/0 indicator ov
 CHECKS["C12"] = ("statement formula from respondent-level counts and per-cell bases; erfc p-values; 2x2 Pearson chi-square; exact rational rank for the degenerate rule (Hypothesis)",
     "Generated-input search over all pairings incl. MR per-cell bases, subtotal rows/columns and deliberately degenerate tables: z and p recomputed per cell from the oracle's bases, chi-square identity on 2x2, all-NaN when the exact rank of the base counts is < 2.",
     "Zero-denominator cells only required non-finite; p-values via math.erfc (different route from scipy.stats.norm).", "6 C12")
+CHECKS["C13"] = ("respondent-level t / df / Student-t p (incomplete beta), Welch test from the response's means/stddevs/counts, overlap-corrected statistic from S/N tabulations, index sets recomputed from public t/p (Hypothesis)",
+    "Generated-input search: weighted tables with and without squared weights (effective base), categorical / MR columns, subtotal rows and columns as selected or compared column, every alpha pair and only-larger flag; antisymmetry, symmetry, zero diagonal, index-set definition and alt-superset; legacy pairwise_significance_tests must agree with the current API on CAT x CAT (defect found and fixed).",
+    "zz9 overlap measure semantics assumed as documented in the library's docstrings; behaviour under column reorder/hide is judged by C05.", "6 C13")
 NOT_BUILT = {}
 
 def main():
